@@ -147,12 +147,12 @@ def check(run):
            "scan returns what scan_node returns", "", mech="return-shape match")
 
     # ------------------------------------------------------------------ R2 / R6 engine
-    frames.emit(run, lambda v: v.vc == "V9" or (v.vc == "V7") or (v.vc == "V5" and v.key.startswith(("rebased-span", "shift-once", "Node.shift"))) or
+    frames.emit(run, lambda v: v.vc in ("V9", "V7", "V2") or (v.vc == "V5" and v.key.startswith(("rebased-span", "shift-once", "Node.shift"))) or
                 (v.vc == "V4" and v.key.startswith("inside-context")),
                 rule_of=lambda v: "R2-return-root" if v.vc == "V9" else ("R3-pairing" if v.vc == "V7" else "R6-rebase-in-bounds"))
     fa = frames.analysis(prog)
-    # a hit is also never left of its node: s >= A(NODE) follows from the sort order (V2) - recorded as the assumption it is
-    run.assume("hits are visited in order of start, so a hit never starts left of an open context (V2, decided under C05)")
+    # a hit is also never left of its node: s >= A(NODE) follows from the sort order (V2, emitted above under R6: a hit visited out of
+    # order is rebased against a context that starts after it, i.e. gets a negative start)
     # pop loop with an empty stack must be impossible: either the loop tests the stack or every hit is in bounds (R5)
     run.note("pop_loop_tests_stack", fa.has_stack_guard_in_pop_loop)
 
